@@ -352,6 +352,12 @@ def write_scsv_header(stream, schema, comments=None):
             + " Check logging output for details."
         )
 
+    def _quote(value):
+        # Single-quoted YAML scalar, so that arbitrary strings survive the round trip.
+        if isinstance(value, str):
+            return "'" + value.replace("'", "''") + "'"
+        return value
+
     stream.write("---" + os.linesep)
     if comments is not None:
         for comment in comments:
@@ -359,21 +365,21 @@ def write_scsv_header(stream, schema, comments=None):
     stream.write("schema:" + os.linesep)
     delimiter = schema["delimiter"]
     missing = schema["missing"]
-    stream.write(f"  delimiter: '{delimiter}'{os.linesep}")
-    stream.write(f"  missing: '{missing}'{os.linesep}")
+    stream.write(f"  delimiter: {_quote(delimiter)}{os.linesep}")
+    stream.write(f"  missing: {_quote(missing)}{os.linesep}")
     stream.write("  fields:" + os.linesep)
 
     for field in schema["fields"]:
         name = field["name"]
         kind = field.get("type", _SCSV_DEFAULT_TYPE)
-        stream.write(f"    - name: {name}{os.linesep}")
+        stream.write(f"    - name: {_quote(name)}{os.linesep}")
         stream.write(f"      type: {kind}{os.linesep}")
         if "unit" in field:
             unit = field["unit"]
-            stream.write(f"      unit: {unit}{os.linesep}")
+            stream.write(f"      unit: {_quote(unit)}{os.linesep}")
         if "fill" in field:
             fill = field["fill"]
-            stream.write(f"      fill: {fill}{os.linesep}")
+            stream.write(f"      fill: {_quote(fill)}{os.linesep}")
     stream.write("---" + os.linesep)
 
 
